@@ -228,6 +228,16 @@ fn c12(st: &mut Stats, max: u32) -> Res {
         ptype(&["E"], vec![("T", None)], TypeDef::Variant(TypeDefVariant { variants: vec![] }), &["td", ""]),
         ptype(&[], vec![], TypeDef::Array(TypeDefArray { len: 1, type_param: sym(0) }), &[]),
         ptype(&[], vec![], TypeDef::Array(TypeDefArray { len: 2, type_param: sym(0) }), &[]),
+        // values that differ only in the ORDER of a list (variants not in index order, fields, tuple members, parameters, docs):
+        // a table that normalises what it stores (sorting, deduplicating) merges or alters them
+        ptype(&["O"], vec![], TypeDef::Variant(TypeDefVariant { variants: vec![Variant { name: "A".into(), fields: vec![], index: 0, docs: vec![] }, Variant { name: "B".into(), fields: vec![], index: 1, docs: vec![] }] }), &[]),
+        ptype(&["O"], vec![], TypeDef::Variant(TypeDefVariant { variants: vec![Variant { name: "B".into(), fields: vec![], index: 1, docs: vec![] }, Variant { name: "A".into(), fields: vec![], index: 0, docs: vec![] }] }), &[]),
+        ptype(&["O"], vec![], TypeDef::Composite(TypeDefComposite { fields: vec![pfield(Some("f"), 1, None, &[]), pfield(Some("e"), 0, None, &[])] }), &[]),
+        ptype(&["O"], vec![], TypeDef::Composite(TypeDefComposite { fields: vec![pfield(Some("e"), 0, None, &[]), pfield(Some("f"), 1, None, &[])] }), &[]),
+        ptype(&[], vec![], TypeDef::Tuple(TypeDefTuple { fields: vec![sym(1), sym(0), sym(1)] }), &[]),
+        ptype(&[], vec![], TypeDef::Tuple(TypeDefTuple { fields: vec![sym(0), sym(1), sym(1)] }), &[]),
+        ptype(&["O"], vec![("U", Some(1)), ("T", None)], TypeDef::Tuple(TypeDefTuple { fields: vec![] }), &["b", "a"]),
+        ptype(&["O"], vec![("T", None), ("U", Some(1))], TypeDef::Tuple(TypeDefTuple { fields: vec![] }), &["a", "b"]),
     ];
     let nv = vals.len();
     // ops: 0..nv register value k, nv next_type_id, nv+1.. get(i)
